@@ -1,0 +1,63 @@
+//go:build verif
+
+package tex
+
+// Contracts for govc (contract-based deductive verification, see /verif/DESIGN.md).
+// Comments only; compiled only with the build tag `verif`.
+
+//@ arith mixed
+//@ property C20
+//@ assumption UnmarshalJSON receives a well-formed JSON scalar token (what encoding/json and jsoniter pass): non-empty, and if it starts with a quote it has length >= 2 and ends with a quote
+//
+//@ pure token(b []byte) bool = len(b) > 0 && (b[0] == 34 ==> len(b) >= 2 && b[len(b)-1] == 34)
+//@ pure quoted(b []byte) bool = len(b) >= 2 && b[0] == 34 && b[len(b)-1] == 34
+//@ pure inner(b []byte) string = string(b[1:len(b)-1])
+//
+//@ func JsInt64.UnmarshalJSON
+//@   requires token(b) && i != nil && ErrInvalidInt64Js != nil
+//@   ensures #exact result == nil ==> (quoted(b) && len(b) == 2 && deref(i) == 0) || (quoted(b) && len(b) > 2 && isint(inner(b)) && deref(i) == JsInt64(ival(inner(b)))) || (!quoted(b) && isint(string(b)) && deref(i) == JsInt64(ival(string(b))))
+//@   ensures #untouched result != nil ==> deref(i) == old(deref(i))
+//@   modifies deref(i)
+//
+//@ func JsUInt64.UnmarshalJSON
+//@   requires token(b) && i != nil && ErrInvalidInt64Js != nil && ErrInvalidUInt64Js != nil
+//@   ensures #exact result == nil ==> quoted(b) && isuint(inner(b), 10) && deref(i) == JsUInt64(uval(inner(b), 10))
+//@   ensures #untouched result != nil ==> deref(i) == old(deref(i))
+//@   modifies deref(i)
+//
+//@ func UnixStamp.UnmarshalJSON
+//@   requires token(b) && i != nil && ErrInvalidInt64Js != nil
+//@   ensures #exact result == nil ==> quoted(b) && isint(inner(b)) && deref(i) == UnixStamp(ival(inner(b)))
+//@   ensures #untouched result != nil ==> deref(i) == old(deref(i))
+//@   modifies deref(i)
+//
+//@ func JsUnixTime.UnmarshalJSON
+//@   requires token(b) && i != nil && ErrInvalidInt64Js != nil
+//@   ensures #exact result == nil ==> quoted(b) && isint(inner(b))
+//@   modifies JsUnixTime.wall, JsUnixTime.ext, JsUnixTime.loc
+//
+//@ func JsNanoTime.UnmarshalJSON
+//@   requires token(b) && i != nil && ErrInvalidInt64Js != nil
+//@   ensures #exact result == nil ==> quoted(b) && isint(inner(b))
+//@   modifies JsNanoTime.wall, JsNanoTime.ext, JsNanoTime.loc
+//
+//@ func Duration.UnmarshalJSON
+//@   requires token(b) && i != nil && ErrInvalidDuration != nil
+//@   ensures #exact result == nil ==> quoted(b) && isdur(inner(b)) && int64(deref(i)) == durval(inner(b))
+//@   ensures #untouched result != nil ==> deref(i) == old(deref(i))
+//@   modifies deref(i)
+//
+//@ func JsByte.FromString
+//@   requires i != nil
+//@   ensures #empty len(strBuf) == 0 ==> result == nil && len(deref(i)) == 0
+//@   ensures #exact result == nil && len(strBuf) > 0 ==> len(deref(i)) == splitcount(strBuf, "/") && forall j int :: { deref(i)[j] } 0 <= j && j < len(deref(i)) ==> isint(splitpart(strBuf, "/", j)) && 0 <= ival(splitpart(strBuf, "/", j)) && ival(splitpart(strBuf, "/", j)) <= 255 && deref(i)[j] == uint8(ival(splitpart(strBuf, "/", j)))
+//@   modifies deref(i), region($alloc)
+//@   loop 1
+//@     invariant 0 <= j && j <= size && size == len(strNums) && size == splitcount(strBuf, "/") && len(deref(i)) == size && isfresh(deref(i)) && (forall k int :: { strNums[k] } 0 <= k && k < size ==> strNums[k] == splitpart(strBuf, "/", k))
+//@     invariant #done forall k int :: { deref(i)[k] } 0 <= k && k < j ==> isint(splitpart(strBuf, "/", k)) && 0 <= ival(splitpart(strBuf, "/", k)) && ival(splitpart(strBuf, "/", k)) <= 255 && deref(i)[k] == uint8(ival(splitpart(strBuf, "/", k)))
+//
+//@ func JsByte.UnmarshalJSON
+//@   requires token(b) && i != nil && ErrInvalidByteJs != nil
+//@   ensures #quoted result == nil ==> quoted(b)
+//@   ensures #exact result == nil && len(b) > 2 ==> len(deref(i)) == splitcount(inner(b), "/") && forall j int :: { deref(i)[j] } 0 <= j && j < len(deref(i)) ==> isint(splitpart(inner(b), "/", j)) && 0 <= ival(splitpart(inner(b), "/", j)) && ival(splitpart(inner(b), "/", j)) <= 255 && deref(i)[j] == uint8(ival(splitpart(inner(b), "/", j)))
+//@   modifies deref(i), region($alloc)
